@@ -3,7 +3,7 @@
 
 def _c19_case(c):
     p = c.split(" ")
-    if p[0] in ("M", "T", "U", "L", "J", "B", "S"):
+    if p[0] in ("M", "T", "U", "L", "J", "B", "S", "D"):
         return {"op": p[0], "hex": p[1]}
     if p[0] == "F":
         return {"op": "F", "civil": " ".join(p[1:7])}
@@ -151,6 +151,15 @@ def _vm_goal(case, out):
         return "format_rfc3339_utc %s = %s" % (call, _vm_str(o[0]))
     if p[0] == "A" and o[1] != "UNREADABLE":
         return "(json_ann %s, read_obj (json_ann %s)) = (%s, Some (%s, (@nil N)))" % (_vm_ann(p[1]), _vm_ann(p[1]), _vm_str(o[0]), _vm_ann(o[1]))
+    if p[0] == "D":
+        sh = lambda t: "(@None str)" if t == "NONE" else "(Some %s)" % _vm_str(t)
+        if o[2] == "NONE":
+            cfg = "(@None (str * str * N))"
+        else:
+            cm, cd, cn = o[2].split(":")
+            cfg = "(Some (%s, %s, %s))" % (_vm_str(cm), _vm_str(cd), cn)
+        return "(doc_media_type %s, doc_artifact_type %s, doc_config_head %s) = (%s, %s, %s)" % (
+            _vm_str(p[1]), _vm_str(p[1]), _vm_str(p[1]), sh(o[0]), sh(o[1]), cfg)
     if p[0] == "S":
         return "digest_of %s = %s" % (_vm_str(p[1]), _vm_str(o[0]))
     if p[0] == "J":
@@ -186,7 +195,7 @@ def _vm_goal(case, out):
 
 def _c19_vm_sample(d, tier, coq, build):
     import os, subprocess, collections
-    quota = {"K": 250, "M": 120, "T": 120, "U": 60, "L": 60, "J": 60, "B": 40, "F": 40, "S": 12, "A": 30} if tier == "thorough" else {"K": 30, "M": 15, "T": 15, "U": 10, "L": 10, "J": 10, "B": 5, "F": 5, "S": 3, "A": 5}
+    quota = {"K": 250, "M": 120, "T": 120, "U": 60, "L": 60, "J": 60, "B": 40, "F": 40, "S": 12, "A": 30, "D": 30} if tier == "thorough" else {"K": 30, "M": 15, "T": 15, "U": 10, "L": 10, "J": 10, "B": 5, "F": 5, "S": 3, "A": 5, "D": 5}
     outs = {}
     with open(os.path.join(d, "model.txt")) as f:
         for l in f:
@@ -233,7 +242,7 @@ def _c19_vm_sample(d, tier, coq, build):
 
 CONFIG = {
     "properties_file": "Properties/C19.v",
-    "proof_files": ["Base/Prelude.v", "Base/Regex.v", "Base/StrCheck.v", "Proofs/Pack.v", "Proofs/PackTime.v", "Proofs/PackJson.v", "Proofs/PackTie.v", "Proofs/PackEnc.v"],
+    "proof_files": ["Base/Prelude.v", "Base/Regex.v", "Base/StrCheck.v", "Proofs/Pack.v", "Proofs/PackTime.v", "Proofs/PackJson.v", "Proofs/PackTie.v", "Proofs/PackEnc.v", "Proofs/PackNum.v"],
     "model_files": ["Generated/GC19.v", "Model/Pack.v", "Model/PackEnc.v", "Model/PackSha.v"],
     "extract": "XC19.v",
     "ml_main": "c19_main.ml",
@@ -242,7 +251,7 @@ CONFIG = {
     "post_model": _c19_vm_sample,
     "assumptions": [
         "json.Marshal of the manifest documents IS MODELLED: Model/PackEnc.v json_manifest (struct field order and omitempty of ocispec.Manifest / Descriptor / Platform and spec.Artifact -- the tags are re-read by the translator, kind jsontags, from the repository and from image-spec in the module cache --, appendString escaping incl. HTML-safe set, U+2028/9 and coercion of invalid UTF-8, map keys sorted bytewise, int64 decimal, []byte in base64); it is compared byte for byte with the stored manifest on every successful call and with json.Marshal / base64 on random strings (case kinds J, B). The theorems keep marshal as a parameter (they hold for any marshalling); C19_json_marshal_order_independent, C19_annotation_order_independent_json, C19_json_string_roundtrip and C19_json_string_injective_on_valid_utf8 are about the modelled one",
-        "READING BACK a whole manifest (encoding/json Unmarshal of the document) is still the named premise json_roundtrip of C19_stored_parses: unmarshal (marshal m) = Some (san_manifest m); it is a theorem for strings (json_unesc (json_esc s) = Some (utf8_san s)) and for the annotations object (C19_json_annotations_roundtrip: read_obj (json_ann l ++ rest) = Some (san_ann (kv_sort l), rest); compared with encoding/json's Marshal and ordered decoding on random maps, case kind A), not for the whole document; the harness re-parses the stored bytes with encoding/json and compares the document field by field; strings that are not valid UTF-8 are generated for annotation keys/values, config annotations, artifactType and inside caller-supplied descriptors (media type, annotations, urls, artifactType) -- known finding non-utf8-lossy; keys colliding after coercion are not generated",
+        "READING BACK a whole manifest (encoding/json Unmarshal of the document) is still the named premise json_roundtrip of C19_stored_parses: unmarshal (marshal m) = Some (san_manifest m); it is a theorem for strings (json_unesc (json_esc s) = Some (utf8_san s)) and for the annotations object (C19_json_annotations_roundtrip: read_obj (json_ann l ++ rest) = Some (san_ann (kv_sort l), rest); compared with encoding/json's Marshal and ordered decoding on random maps, case kind A), and for the head of the manifest document (C19_document_declares_media_type / _artifact_type: the mediaType and artifactType fields read from json_manifest m; the model's readers are run on the implementation's stored bytes against encoding/json, case kind D; C19_stored_document_declares: the stored document declares the returned descriptor's media type), for decimal numbers (C19_json_number_roundtrip) and for the head of the config descriptor of an image manifest (C19_document_declares_config: media type, digest, size; the model's reader runs on the implementation's stored bytes, case kind D), not for the whole document (layers, subject, urls/data/platform of descriptors are written by the model but not read back); the harness re-parses the stored bytes with encoding/json and compares the document field by field; strings that are not valid UTF-8 are generated for annotation keys/values, config annotations, artifactType and inside caller-supplied descriptors (media type, annotations, urls, artifactType) -- known finding non-utf8-lossy; keys colliding after coercion are not generated",
         "the digest function is a parameter H with the single hypothesis H \"{}\" = sha256:44136f...; collision-freeness of H is an explicit premise of the clauses that conclude equality of stored bytes; digest.FromBytes (SHA-256) has an executable model (Model/PackSha.v digest_of, compared with go-digest on random strings, case kind S, and with the descriptor digest of a 1/40 sample of the pack calls); it satisfies the hypothesis by computation (C19_sha256_of_empty_json) and the theorems instantiate to the fully executable model (C19_executable_instance_consistent); collision-freeness of SHA-256 is of course not proved",
         "C19_annotation_order_independent keeps the premise marshal_perm for an arbitrary marshal; for the modelled json.Marshal it is the theorem C19_json_marshal_order_independent (canonical insertion sort by strings.Compare order, keys distinct); the harness re-inserts annotations in reverse order into maps of another capacity on every successful call and walks the raw stored JSON for sorted keys",
         "the validation of a caller-supplied created value is modelled as the code is written: time.Parse(time.RFC3339, _) = the lenient recogniser rfc3339_gen false (step-by-step mirror of time.parse of go1.26.8 for that layout; compared with the real time.Parse on every run, case kind L), followed by the explicit strict checks of validateRFC3339 re-read by the translator (kind strictchecks); proved equal to the strict recogniser and to the RFC 3339 section 5.6 grammar with upper-case T/Z and no leap second; all indices in range",
@@ -252,8 +261,8 @@ CONFIG = {
         "the order of validations, storage operations and the created step inside every function of pack.go (kind callseq, C19_call_order_as_in_source) and every decision of those functions as source text (kind ifconds, C19_decisions_as_in_source) are re-read by the translator and pinned by lemmas; constants of image-spec v1.1.1 (media types, annotation keys, DescriptorEmptyJSON) and defaultManifestMediaTypes are hand-written in the model and tied by the correspondence run; the oras-go constants and mediaTypeRegexp are regenerated from pack.go / internal/spec/artifact.go",
         "'the result can be copied': proved in the form C19_closed / C19_closed_when_supplied_present (with the caller's descriptors present, the new manifest and all its successors answer Exists); oras.CopyGraph itself is the harness oracle (run when every caller-supplied descriptor is backed; not judged when the caller types the invented config as a manifest media type, a caller inconsistency); the registry target is a minimal in-process distribution endpoint (validates manifests only when everything is backed, referrers API reported as supported)",
     ],
-    "level_text": "Coq theorems for all inputs: mediaTypeRegexp (re-translated from pack.go on every run) = RFC 6838 restricted-name/restricted-name; every run of the four packers over any target (key discipline, Exists or not, any prior content, any single storage fault) has one of five outcomes; PackManifest's rejections (invalid media type, subject under v1.0, missing artifact type, unknown version) leave the state untouched (Pack rejects nothing: stated as a deviation); the created validation accepts exactly the RFC 3339 date-times with upper-case T/Z and no leap second, so a created value that is not RFC 3339 gives an error with no manifest push and only the blob {} added (the pre-fix validation, time.Parse alone, is refuted by a witness); on success the manifest equals the requested document with the documented placeholders and a parsing created annotation, the descriptor is digest/size/media type of the marshalled bytes and is stored, every invented blob is stored with content {}, every successor is caller-supplied or stored, content-addressed stores stay so, a fixed created annotation makes descriptor and manifest independent of target, clock and faults and of the order in which annotations are listed (a theorem for the modelled json.Marshal: byte-exact executable model of the encoder, canonical key sorting, string round trip); the storage operations of every call are only Exists/Push of {} for invented descriptors followed by the manifest push; repeating a successful call on a content-addressed target changes nothing (refuted for the file store); over any history of calls stores stay content-addressed and earlier results stay; the clock's created value always passes the validation; rejections return exactly the error the source order gives; on a healthy target the input alone classifies the outcome and a valid input always succeeds; the annotations object reads back as requested (coerced, key-sorted)",
+    "level_text": "Coq theorems for all inputs: mediaTypeRegexp (re-translated from pack.go on every run) = RFC 6838 restricted-name/restricted-name; every run of the four packers over any target (key discipline, Exists or not, any prior content, any single storage fault) has one of five outcomes; PackManifest's rejections (invalid media type, subject under v1.0, missing artifact type, unknown version) leave the state untouched (Pack rejects nothing: stated as a deviation); the created validation accepts exactly the RFC 3339 date-times with upper-case T/Z and no leap second, so a created value that is not RFC 3339 gives an error with no manifest push and only the blob {} added (the pre-fix validation, time.Parse alone, is refuted by a witness); on success the manifest equals the requested document with the documented placeholders and a parsing created annotation, the descriptor is digest/size/media type of the marshalled bytes and is stored, every invented blob is stored with content {}, every successor is caller-supplied or stored, content-addressed stores stay so, a fixed created annotation makes descriptor and manifest independent of target, clock and faults and of the order in which annotations are listed (a theorem for the modelled json.Marshal: byte-exact executable model of the encoder, canonical key sorting, string round trip); the storage operations of every call are only Exists/Push of {} for invented descriptors followed by the manifest push; repeating a successful call on a content-addressed target changes nothing (refuted for the file store); over any history of calls stores stay content-addressed and earlier results stay; the clock's created value always passes the validation; rejections return exactly the error the source order gives; on a healthy target the input alone classifies the outcome and a valid input always succeeds; the annotations object reads back as requested (coerced, key-sorted); the stored document declares the returned media type and the requested artifact type; on healthy targets the results of a history are functions of the calls alone, so the order of the calls is irrelevant",
     "level_note": "DEVIATIONS: (1) the rejection clauses hold for PackManifest only -- Pack (deprecated) validates nothing and accepts any string as media type (C19_pack_rejects_nothing_deviation, C19_pack_accepts_invalid_media_type_deviation); for v1.0 with a ConfigDescriptor an invalid artifactType is ignored as documented; (2) known finding non-utf8-lossy: strings that are not valid UTF-8 are coerced by json.Marshal, so 'exactly the requested annotations' and, for Pack, 'can be copied' fail (C19_lossy_json_refuted); the parse clause is C19_stored_parses under the named premise json_roundtrip. ORACLE-ONLY: oras.CopyGraph itself (run when every caller-supplied descriptor is backed; not judged when the caller types the invented config as a manifest); proved instead: C19_closed and C19_closed_when_supplied_present (manifest and all successors answer Exists when the caller's descriptors are present). json.Marshal is modelled byte-exactly (Model/PackEnc.v) and compared with the stored bytes; reading a whole document back is the named premise json_roundtrip (a theorem for strings); the digest is a parameter of the theorems (H \"{}\" fixed; collision-freeness an explicit premise where bytes are compared) with an executable SHA-256 instance compared with the implementation; the created validation = lenient time.Parse mirror (compared with time.Parse every run) + checks translated from pack.go, proved = RFC 3339 subset; image-spec constants hand-written; targets: memory, OCI layout, file store (file.New defaults, titled descriptors included), remote.Repository over an in-process distribution endpoint; the storage-failure model is one failing operation of any error class plus the file store's ErrDuplicateName",
     "technique": "machine-checked proof in Coq + translator-regenerated definitions + model/implementation correspondence",
-    "explanation": "theorems over all inputs, targets, prior contents and single storage faults about the model of pack.go whose regex/constants are regenerated from the source; differential run of model vs PackManifest/Pack over recording memory/OCI/file targets, exhaustive small-alphabet + boundary + mutated media types and timestamps against validateMediaType and validateRFC3339 (both through PackManifest) and against time.Parse alone; byte strings against json's UTF-8 coercion, json string escaping and base64; stored manifest bytes and descriptor size against the modelled encoder; civil times against time.Format; two-call and chained multi-call histories against the model; enumerated faults of five error classes on all four target kinds; coverage floors; independent oracle: RFC 6838 recogniser, stored bytes re-fetched, re-hashed and re-parsed against the generator's ground truth, invented blobs fetched, CopyGraph into an empty store, repeat calls for determinism, no push on rejection",
+    "explanation": "theorems over all inputs, targets, prior contents and single storage faults about the model of pack.go whose regex/constants are regenerated from the source; differential run of model vs PackManifest/Pack over recording memory/OCI/file targets, exhaustive small-alphabet + boundary + mutated media types and timestamps against validateMediaType and validateRFC3339 (both through PackManifest) and against time.Parse alone; byte strings against json's UTF-8 coercion, json string escaping and base64; stored manifest bytes and descriptor size against the modelled encoder; civil times against time.Format; two-call and chained multi-call histories against the model, chains re-run in reverse order on a fresh store (results equal call for call); enumerated faults of five error classes on all four target kinds; coverage floors; independent oracle: RFC 6838 recogniser, stored bytes re-fetched, re-hashed and re-parsed against the generator's ground truth, invented blobs fetched, CopyGraph into an empty store, repeat calls for determinism, no push on rejection",
 }
